@@ -24,7 +24,8 @@ META = {
         "decided: that two channels give observably equal results."
         ' Also: generic option forwarding (DEADPARAM / FORWARD / SIB-DEFAULTS / delegate names), construct_tracts hands parse_qq to every Tract, parse_tracts forwards its arguments as given (provenance), the reader applies a parsed setting unless it is None (three-valued str_to_value), keyword-wins by constant propagation, MasterConfig is the last fallback.'
         ' Round 7: the .config setters are not gated on .config_text; Config.decompile_to_text writes typed settings only; the word dispatch of _text_to_attributes is evaluated on layout names, directions, boolean settings and non-settings.'
-        ' Round 8: a setting sets only itself (_set_str_to_values); parse_tracts() is not gated on parse_complete.'),
+        ' Round 8: a setting sets only itself (_set_str_to_values); parse_tracts() is not gated on parse_complete.'
+        ' Round 9: decompile_to_text walks the complete table of settings; no de-duplication in TractParser.parse.'),
     'families': ['TBL', 'LOCK', 'DEADPARAM', 'SIB', 'FORWARD', 'DEADPARAM', 'SIB-DEFAULTS'],
 }
 
